@@ -403,15 +403,25 @@ def run(ck: Check) -> None:
     deep_calls = [("vsignable", [deep_env(dp), [kk_[0].hex], 1, False]) for dp in (100, 200)]
     stag_pairs = [(deep_calls[0], deep_calls[1]), (directed[2], deep_calls[1]), (directed[0], directed[0]), (directed[1], directed[1]),
                   (directed[2], directed[0]), (deep_calls[1], directed[2])] + [(x, y) for x in okc[:2] for y in badc[:1]]
+    # ... and a genuine OpenPGP-signed envelope next to a forgery that carries the genuine one's signature entries over another payload (related inputs: same
+    # key, same signature, different payload), in both orders, over a dense grid of stopping points: the forgery is rejected in every schedule
+    g_env = gen.sign_env(gen.envelope({"doc": "genuine", "n": 2}), kk_[:1], True)
+    f_env = {"signatures": copy.deepcopy(g_env["signatures"]), "signed": {"doc": "forged", "n": 3}}
+    g_call, f_call = ("vsignable", [g_env, [kk_[0].hex], 1, True]), ("vsignable", [f_env, [kk_[0].hex], 1, True])
+    dense = [(g_call, f_call), (f_call, g_call)]
+    stag_pairs = stag_pairs[:6] + dense + stag_pairs[6:]
     nsched = 0
     with impl.quiet_stdout():
-        for (xop, xargs), (yop, yargs) in stag_pairs[: (len(stag_pairs) if ck.thorough else 6)]:
+        for (xop, xargs), (yop, yargs) in stag_pairs[: (len(stag_pairs) if ck.thorough else 8)]:
             fa = (lambda: from_deep_stack(lambda: impl._run(xop, xargs))) if (xop, xargs) in deep_calls else (lambda: impl._run(xop, xargs))
             fb = (lambda: from_deep_stack(lambda: impl._run(yop, yargs))) if (yop, yargs) in deep_calls else (lambda: impl._run(yop, yargs))
             want_a, na = sched.count_events(fa, repo_pkg)
             want_b, nb = sched.count_events(fb, repo_pkg)
             pts_a = sorted({max(1, int(na * f)) for f in ((0.05, 0.2, 0.4, 0.6, 0.8, 0.95, 1.0) if not ck.thorough else [i / 20 for i in range(1, 21)])})
             pts_b = sorted({max(1, int(nb * f)) for f in ((0.1, 0.5, 0.9) if not ck.thorough else [i / 10 for i in range(1, 11)])})
+            if ((xop, xargs), (yop, yargs)) in dense:
+                stride = 1 + (na * nb) // (4000 if ck.thorough else 1200)
+                pts_a, pts_b = list(range(1, na + 1)), list(range(1, nb + 1, stride))
             if (yop, yargs) in deep_calls:
                 # every pair of stopping points (thinned evenly when there are more than 1500)
                 stride = 1 + (na * nb) // (1500 if ck.thorough else 500)
